@@ -249,11 +249,13 @@ From Coq Require Import String Ascii.
 Definition L (s : string) : list N :=
   map (fun a => let c := N_of_ascii a in if c =? 47 then 10 else c) (list_ascii_of_string s).
 
+Definition R (k : nat) (s : string) : rline := (k, L s).
+
 (* Example 8.1 / 8.2: indentation indicators *)
 Example ex_8_2_detected : block_value true CClip [Text 0 (L "detected")] = L "detected/". Proof. reflexivity. Qed.
 Example ex_8_2_explicit : block_value true CClip [Blank 0; Blank 0; Text 0 (L "# text")] = L "//# text/". Proof. reflexivity. Qed.
-Example ex_8_2_folded_explicit : block_value false CClip (map (classify 1) [(2, L "explicit")]) = L " explicit/". Proof. reflexivity. Qed.
-Example ex_8_2_tab : block_value false CClip (map (classify 1) [(1, [9]); (1, L "detected")]) = [9] ++ L "/detected/".
+Example ex_8_2_folded_explicit : block_value false CClip (map (classify 1) [R 2 "explicit"]) = L " explicit/". Proof. reflexivity. Qed.
+Example ex_8_2_tab : block_value false CClip (map (classify 1) [(1%nat, [9]); R 1 "detected"]) = [9] ++ L "/detected/".
 Proof. reflexivity. Qed.
 (* Example 8.4 / 8.5: chomping *)
 Example ex_8_4_strip : block_value true CStrip [Text 0 (L "text")] = L "text". Proof. reflexivity. Qed.
@@ -266,7 +268,7 @@ Example ex_8_6_strip : block_value false CStrip [Blank 0] = []. Proof. reflexivi
 Example ex_8_6_clip : block_value false CClip [Blank 0] = []. Proof. reflexivity. Qed.
 Example ex_8_6_keep : block_value true CKeep [Blank 0] = L "/". Proof. reflexivity. Qed.
 (* Example 8.8: literal content *)
-Example ex_8_8 : block_value true CClip (map (classify 2) [(1, []); (2, []); (2, L "literal"); (3, []); (2, []); (2, L "text"); (0, [])])
+Example ex_8_8 : block_value true CClip (map (classify 2) [R 1 ""; R 2 ""; R 2 "literal"; R 3 ""; R 2 ""; R 2 "text"; R 0 ""])
                  = L "//literal/ //text/". Proof. reflexivity. Qed.
 (* Example 8.10 - 8.13: folded content *)
 Definition ex_8_10_lines : list bline :=
